@@ -367,6 +367,11 @@ func (c Color) Params() []uint8
   ensures C07_index: (c & indexed != 0) ==> (len(result) == 1 && result[0] == c & 255)
   ensures C07_rgb:   (c & indexed == 0 && c & rgb != 0) ==> (len(result) == 3 && result[0] == chR(c) && result[1] == chG(c) && result[2] == chB(c))
   ensures C07_none:  (c & indexed == 0 && c & rgb == 0) ==> len(result) == 0
+  -- the same for a well-formed colour, in the form callers use: the colour is recovered from the parameters without
+  -- any bit operation
+  ensures C07_wfidx:  (ColorWF(c) && c & indexed != 0) ==> (len(result) == 1 && c == result[0] + 16777216)
+  ensures C07_wfrgb:  (ColorWF(c) && c & indexed == 0 && c & rgb != 0) ==> (len(result) == 3 && c == result[0] * 65536 + result[1] * 256 + result[2] + 33554432)
+  ensures C07_wfnone: (ColorWF(c) && c & indexed == 0 && c & rgb == 0) ==> (len(result) == 0 && c == 0)
 
 func IndexColor(index uint8) Color
   ensures C07_val: result == index + 16777216
@@ -381,11 +386,13 @@ func RGBColor(r uint8, g uint8, b uint8) Color
 
 -- asIndex: a direct colour is mapped to the palette entry (16-255) nearest to it under D; other colours are kept.
 func (c Color) asIndex() Color
+  deterministic idxOf
   ensures C07_keep:    c & rgb == 0 ==> result == c
   ensures C07_nearest: c & rgb != 0 ==> (exists k in 0..len(colorIndex):
                           (result == 16777216 + 16 + k
                            && (forall j in 0..len(colorIndex): D(colorIndex[k], c) <= D(colorIndex[j], c))))
   ensures C07_notrgb:  c & rgb != 0 ==> (result & rgb == 0 && result & indexed != 0)
+  ensures C07_idx:     c & rgb != 0 ==> result == (result & 255) + 16777216
   loop 1 invariant rng:   -1 <= rangeindex && rangeindex < len(colorIndex) && dist != 0.0
   loop 1 invariant least: forall k in 0..rangeindex+1: dist <= D(colorIndex[k], c)
   lemma dbound: D(colorIndex[0], c) < 200000.0
@@ -665,10 +672,85 @@ pred StartMode(vx *Vaxis, m int) =
   || (vx.caps.inBandResize && m == 2048)
 pred Tracked(m int) = m != 25 && m != 2026 && m != -2
 
-func (w *writer) Flush() (n int, err error)
-  assume true -- Flush only transmits what was written and adjusts cursor visibility and synchronized output (modes 25, 2026): taken on trust here, see DESIGN R7
-  ensures modes: modeskept(25, 2026)
+-- The buffered writer (C01: flush prologue and epilogue). bytes.Buffer is outside the module: its length is a ghost
+-- field that WriteString/Write increase and Reset clears (ASSUMED); the console behind it is an io.Writer that
+-- touches no module state (ASSUMED). Text handed to the writer by its callers is not interpreted here.
+ghost blen(b *bytes.Buffer) int
+extern func (*bytes.Buffer).WriteString(b, s)
+  sets blen(b) = blen(b) + len(s)
+extern func (*bytes.Buffer).Write(b, p)
+  sets blen(b) = blen(b) + len(p)
+extern func (*bytes.Buffer).Len(b)
+  ensures result == blen(b)
+extern func (*bytes.Buffer).Reset(b)
+  sets blen(b) = 0
+extern func (*bytes.Buffer).Bytes(b)
+extern func (*bytes.Buffer).String(b)
+extern func bytes.NewBuffer(buf)
+  ensures result != nil && blen(result) == len(buf)
+extern func io.Writer.Write(w, p)
+extern func (*sync.Mutex).Lock(m)
+extern func (*sync.Mutex).Unlock(m)
+
+pred WriterWF(w *writer) = w != nil && w.buf != nil && w.vx != nil && w.w != nil && blen(w.buf) >= 0
+
+-- the first bytes of a frame are preceded by: hide the cursor if it is showing, begin a synchronized update if the
+-- terminal has them; later writes add nothing
+func (w *writer) WriteString(s string) (n int, err error)
+  tokens
   modifies nothing
+  requires wf: WriterWF(w)
+  ensures C01_wf:    WriterWF(w) && blen(w.buf) >= old(blen(w.buf)) + len(s) && pen() == old(pen()) && trow() == old(trow()) && tcol() == old(tcol())
+  ensures C01_first: (s != "" && old(blen(w.buf)) == 0) ==>
+                       (mode(25) == (w.vx.cursorLast.visible ? 0 : old(mode(25)))
+                        && mode(2026) == (w.vx.caps.synchronizedUpdate ? 1 : old(mode(2026))) && modeskept(25, 2026))
+  ensures C01_later: (s == "" || old(blen(w.buf)) != 0) ==> modeskept()
+func (w *writer) Write(p []byte) (n int, err error)
+  tokens
+  modifies nothing
+  requires wf: WriterWF(w)
+  ensures C01_wf:    WriterWF(w) && blen(w.buf) >= old(blen(w.buf)) + len(p) && pen() == old(pen()) && trow() == old(trow()) && tcol() == old(tcol())
+  ensures C01_first: (len(p) != 0 && old(blen(w.buf)) == 0) ==>
+                       (mode(25) == (w.vx.cursorLast.visible ? 0 : old(mode(25)))
+                        && mode(2026) == (w.vx.caps.synchronizedUpdate ? 1 : old(mode(2026))) && modeskept(25, 2026))
+  ensures C01_later: (len(p) == 0 || old(blen(w.buf)) != 0) ==> modeskept()
+
+-- Printf formats into the writer: fmt.Fprintf calls Write once with the formatted text (ASSUMED; fmt is outside the
+-- module and calls back), so Printf does what Write does
+func (w *writer) Printf(s string, args ...any) (n int, err error)
+  tokens
+  modifies nothing
+  requires wf: WriterWF(w)
+  ensures C01_wf:    WriterWF(w) && blen(w.buf) >= old(blen(w.buf)) && pen() == old(pen()) && trow() == old(trow()) && tcol() == old(tcol())
+  ensures C01_first: old(blen(w.buf)) == 0 ==>
+                       ((mode(25) == (w.vx.cursorLast.visible ? 0 : old(mode(25)))
+                         && mode(2026) == (w.vx.caps.synchronizedUpdate ? 1 : old(mode(2026))) && modeskept(25, 2026)) || modeskept())
+  ensures C01_later: old(blen(w.buf)) != 0 ==> modeskept()
+
+-- the sequence that shows the cursor: its shape, its position, then visibility on
+func (vx *Vaxis) showCursor() string
+  tokens
+  modifies nothing
+  ownghosts -- the buffer it fills is its own: bytes.NewBuffer returns a new one
+  ensures C01_show: mode(25) == 1 && modeskept(25) && pen() == old(pen())
+
+-- Flush. With buffered output: the pen is reset, the cursor is shown again iff it was showing and still should, the
+-- synchronized update is ended. Without: only the cursor is adjusted (hidden if it should no longer show; shown at
+-- its new place or shape if it should). The buffer is empty afterwards; no other mode is touched.
+func (w *writer) Flush() (n int, err error)
+  tokens
+  modifies nothing
+  requires wf: WriterWF(w)
+  ensures modes: modeskept(25, 2026)
+  ensures C01_empty:  blen(w.buf) == 0
+  ensures C01_reset:  old(blen(w.buf)) != 0 ==> (NoStyle(pen()) && pen().Hyperlink == old(pen().Hyperlink))
+  ensures C01_sync:   mode(2026) == ((old(blen(w.buf)) != 0 && w.vx.caps.synchronizedUpdate) ? 0 : old(mode(2026)))
+  ensures C01_cursor: old(blen(w.buf)) != 0 ==> mode(25) == ((w.vx.cursorNext.visible && w.vx.cursorLast.visible) ? 1 : old(mode(25)))
+  ensures C01_idle:   old(blen(w.buf)) == 0 ==>
+                        (mode(25) == ((!w.vx.cursorNext.visible && w.vx.cursorLast.visible) ? 0
+                                      : ((w.vx.cursorNext.row != w.vx.cursorLast.row || w.vx.cursorNext.col != w.vx.cursorLast.col
+                                          || w.vx.cursorNext.style != w.vx.cursorLast.style) ? 1 : old(mode(25))))
+                         && pen() == old(pen()))
 
 -- the console (github.com/containerd/console) is outside the module: Close and Reset are assumed to touch no
 -- module state; what they do to the tty's line discipline is not modelled
@@ -678,32 +760,40 @@ extern func github.com/containerd/console.Console.Close(c)
 func (vx *Vaxis) enableModes()
   tokens
   modifies nothing
-  requires vx.tw != nil
+  requires WriterWF(vx.tw)
   ensures C04_on:   forall m in -1..10000: (Tracked(m) && StartMode(vx, m)) ==> mode(m) == 1
   -- (C07) a mode is switched on only if its capability was advertised; everything else is left alone
   ensures C07_gate: forall m in -1..10000: (Tracked(m) && !StartMode(vx, m)) ==> mode(m) == old(mode(m))
   ensures C04_kitty: mode(-2) == old(mode(-2)) + (vx.caps.kittyKeyboard ? 1 : 0)
+  ensures wf: WriterWF(vx.tw)
 
 func (vx *Vaxis) disableModes()
   tokens
   modifies nothing
-  requires vx.tw != nil
+  requires WriterWF(vx.tw)
   -- every mode start-up may have switched on is off again, for every capability set; nothing else is touched
   ensures C04_off:  forall m in -1..10000: (Tracked(m) && StartMode(vx, m)) ==> mode(m) == 0
   ensures C04_keep: forall m in -1..10000: (Tracked(m) && !StartMode(vx, m)) ==> mode(m) == old(mode(m))
   ensures C04_kitty: mode(-2) == old(mode(-2)) - (vx.caps.kittyKeyboard ? 1 : 0)
+  ensures wf: WriterWF(vx.tw)
 
+-- (both flush: the writer's buffer is empty afterwards; the cursor is left hidden on entry -- unless it was and stays
+-- requested visible -- and showing on exit, with the request for it withdrawn)
 func (vx *Vaxis) enterAltScreen()
   tokens
   modifies vx.tw.vx.refresh
-  requires vx.tw != nil && vx.tw.vx != nil
+  requires WriterWF(vx.tw) && vx.tw.vx == vx
   ensures C04_alt: mode(1049) == 1 && modeskept(1049, 25, 2026)
+  ensures wf: WriterWF(vx.tw) && blen(vx.tw.buf) == 0
+  ensures C04_hide: mode(25) == ((vx.cursorNext.visible && vx.cursorLast.visible) ? 1 : 0)
 
 func (vx *Vaxis) exitAltScreen()
   tokens
   modifies vx.cursorNext.visible
-  requires vx.tw != nil
+  requires WriterWF(vx.tw) && vx.tw.vx == vx
   ensures C04_alt: mode(1049) == 0 && modeskept(1049, 25, 2026)
+  ensures wf: WriterWF(vx.tw) && blen(vx.tw.buf) == 0
+  ensures C04_show: mode(25) == 1 && !vx.cursorNext.visible
 @*/
 
 /*@
@@ -712,19 +802,22 @@ func (vx *Vaxis) exitAltScreen()
 func (vx *Vaxis) Suspend() error
   tokens
   modifies vx.cursorLast.style, vx.cursorNext.visible
-  requires vx.tw != nil && vx.tw.vx != nil && vx.tw.vx.tw != nil && vx.parser != nil && vx.console != nil
+  requires WriterWF(vx.tw) && vx.tw.vx == vx && vx.parser != nil && vx.console != nil
   ensures C04_off:  forall m in -1..10000: (Tracked(m) && StartMode(vx, m)) ==> mode(m) == 0
   ensures C04_alt:  mode(1049) == 0
   ensures C04_keep: forall m in -1..10000: (Tracked(m) && !StartMode(vx, m) && m != 1049) ==> mode(m) == old(mode(m))
   ensures C04_kitty: mode(-2) == old(mode(-2)) - (vx.caps.kittyKeyboard ? 1 : 0)
   ensures C04_caps: vx.caps == old(vx.caps) && vx.disableMouse == old(vx.disableMouse)
+  -- the cursor is showing when Suspend returns, whatever the application and the writer's prologue did to it
+  ensures C04_cursor: mode(25) == 1
 
 -- a second Close is harmless: nothing is written
 func (vx *Vaxis) Close()
   tokens
-  requires vx.tw != nil && vx.tw.vx != nil && vx.tw.vx.tw != nil && vx.parser != nil && vx.console != nil
+  requires WriterWF(vx.tw) && vx.tw.vx == vx && vx.parser != nil && vx.console != nil
   ensures C04_idem: old(vx.closed) ==> modeskept()
   ensures C04_closed: vx.closed
+  ensures C04_cursor: !old(vx.closed) ==> mode(25) == 1
   ensures C04_off: !old(vx.closed) ==> ((forall m in -1..10000: (Tracked(m) && StartMode(vx, m)) ==> mode(m) == 0) && mode(1049) == 0
                                          && mode(-2) == old(mode(-2)) - (vx.caps.kittyKeyboard ? 1 : 0))
 @*/
@@ -742,7 +835,7 @@ func (vx *Vaxis) openTty(tgts []*os.File) error
   assume console.ErrNotAConsole != nil -- sentinel error value of github.com/containerd/console
   loop 1 preserves old
   loop 1 invariant frame: vx.tw == old(vx.tw) && vx.parser == old(vx.parser)
-  ensures ok_tw: result == nil ==> (vx.tw != nil && vx.tw.vx == vx)
+  ensures ok_tw: result == nil ==> (WriterWF(vx.tw) && vx.tw.vx == vx)
   ensures ok_con: result == nil ==> vx.console != nil
   ensures ok_par: result == nil ==> vx.parser != nil
   ensures C04_quiet: modeskept()
@@ -765,4 +858,98 @@ pred HostKeyOf(kind int, n int, p0 int, final int) rune =
   : 0)
 pred HostKey(s string) rune = (seqlead(s) == 0) ? HostKeyOf(seqkind(s), seqn(s), seqparam(s, 0), seqfinal(s)) : 0
 pred HostMods(s string) int = (seqkind(s) == 1 && seqn(s) >= 2) ? max(seqparam(s, 1) - 1, 0) : 0
+@*/
+
+/*@
+-- ------------------------------------------------------------------ the renderer's pen (C01)
+-- idxOf names asIndex's result (a fixed function of the colour; what it is, is asIndex's own contract, C07)
+ufun idxOf(c Color) Color
+-- what a terminal with the advertised capabilities shows for a colour / underline the application asked for
+-- (only direct colours are mapped to the palette; asIndex keeps every other colour, C07_keep)
+pred ShownCol(vx *Vaxis, c Color) Color = (vx.caps.rgb || c & rgb == 0) ? c : idxOf(c)
+pred PenIs(vx *Vaxis, fg Color, bg Color, ul Color, uls UnderlineStyle, attr AttributeMask, link string) =
+     pen().Foreground == ShownCol(vx, fg) && pen().Background == ShownCol(vx, bg)
+  && pen().UnderlineColor == (vx.caps.styledUnderlines ? ShownCol(vx, ul) : 0)
+  && pen().UnderlineStyle == (vx.caps.styledUnderlines ? uls : (uls == 0 ? 0 : 1))
+  && pen().Attribute == attr && pen().Hyperlink == link
+pred PenOK(vx *Vaxis, cur Style) = PenIs(vx, cur.Foreground, cur.Background, cur.UnderlineColor, cur.UnderlineStyle, cur.Attribute, cur.Hyperlink)
+pred ScreenShape(s *screen) = s != nil && 0 <= s.rows && 0 <= s.cols && len(s.buf) == s.rows && (forall r in 0..s.rows: len(s.buf[r]) == s.cols)
+-- the two screens have the same size and share no row storage (screen.resize makes every row afresh)
+pred FrameWF(vx *Vaxis) = WriterWF(vx.tw) && ScreenShape(vx.screenNext) && ScreenShape(vx.screenLast)
+  && vx.screenNext.rows == vx.screenLast.rows && vx.screenNext.cols == vx.screenLast.cols && vx.screenNext != vx.screenLast
+  && ref(vx.charCache) != 0
+  && (forall r1 in 0..vx.screenNext.rows: forall r2 in 0..vx.screenNext.rows: backing(vx.screenNext.buf[r1]) != backing(vx.screenLast.buf[r2]))
+pred CellsWF(vx *Vaxis) = forall r in 0..vx.screenNext.rows: forall c in 0..vx.screenNext.cols: StyleWF(vx.screenNext.buf[r][c].Style)
+pred PlacementsOK(ps []*placement) = forall i in 0..len(ps): ps[i] != nil && ps[i].deleteFn != nil && ps[i].writeTo != nil
+
+-- graphics placements are closures; their calls are recorded, and they are ASSUMED not to alter the pen, the
+-- screens' geometry or the capability set (the sixel closure marks cells of the next screen as covered)
+logfield placement.writeTo placed
+logfield placement.deleteFn deleted
+
+-- how many columns beyond its own a cell occupies (the width is measured when the cell does not say; the cache is a map
+-- and maps are not modelled: a measured width is an unknown int)
+ufun cwidth(vx *Vaxis, s string) int
+func (vx *Vaxis) characterWidth(s string) int
+  requires cache: ref(vx.charCache) != 0
+  deterministic cwidth
+func (vx *Vaxis) advance(cell Cell) int
+  requires cache: ref(vx.charCache) != 0
+  ensures C01_adv: result >= 0 && (cell.Width > 0 ==> result == cell.Width - 1)
+                   && (cell.Width == 0 ==> result == max(cwidth(vx, cell.Grapheme) - 1, 0))
+
+-- a cell of screenLast that was declared unknown (covered by a wide glyph): the zero cell
+pred BlankCell(c Cell) = c.Grapheme == "" && c.Width == 0 && !c.sixel && NoStyle(c.Style) && c.Hyperlink == "" && c.HyperlinkParams == ""
+pred Nulled(vx *Vaxis, row int, col int, n int) = forall k in 1..n: col + k < vx.screenNext.cols ==> BlankCell(vx.screenLast.buf[row][col + k])
+
+-- the terminal's cursor is on a cell (CUP counts from 1)
+pred At(row int, col int) = trow() == row + 1 && tcol() == col + 1
+
+-- render: whenever a cell's text is written, the pen the terminal holds is the cell's style as the advertised
+-- capabilities can show it; the hyperlink is closed when the frame ends
+func (vx *Vaxis) render()
+  tokens cursor
+  uses (Color).asIndex: C07_keep, C07_notrgb, C07_idx
+  uses (Color).Params: C07_wfidx, C07_wfrgb, C07_wfnone
+  uses (*writer).WriteString: C01_wf
+  uses (*writer).Printf: C01_wf
+  requires wf: FrameWF(vx)
+  requires cells: CellsWF(vx)
+  requires gfx: PlacementsOK(vx.graphicsLast) && PlacementsOK(vx.graphicsNext)
+  requires start: NoStyle(pen()) && pen().Hyperlink == ""
+  loop * invariant wf: FrameWF(vx) && StyleWF(cursor)
+  loop * invariant cells: CellsWF(vx)
+  loop * invariant gfx: PlacementsOK(vx.graphicsLast) && PlacementsOK(vx.graphicsNext)
+  loop * invariant C01_pen: PenOK(vx, cursor)
+  cut "if next.sixel" nextwf: StyleWF(next.Style)
+  cut "if cursor.Foreground != next.Foreground" C01_last: vx.screenLast.buf[row][col] == next
+  cut "if cursor.Foreground != next.Foreground" forget pen s0: PenOK(vx, cursor) && vx.tw != nil && StyleWF(cursor) && StyleWF(next.Style) && At(row, col)
+  cut "if cursor.Background != next.Background" forget pen s1: PenIs(vx, next.Foreground, cursor.Background, cursor.UnderlineColor, cursor.UnderlineStyle, cursor.Attribute, cursor.Hyperlink) && vx.tw != nil && StyleWF(cursor) && StyleWF(next.Style) && At(row, col)
+  cut "if vx.caps.styledUnderlines {" forget pen s2: PenIs(vx, next.Foreground, next.Background, cursor.UnderlineColor, cursor.UnderlineStyle, cursor.Attribute, cursor.Hyperlink) && vx.tw != nil && StyleWF(cursor) && StyleWF(next.Style) && At(row, col)
+  -- (inside the underline-colour section, where the parameters of the colour to show are known: they determine it)
+  cut "switch len(ps) {" @3 forget pen s2b: PenIs(vx, next.Foreground, next.Background, cursor.UnderlineColor, cursor.UnderlineStyle, cursor.Attribute, cursor.Hyperlink) && vx.tw != nil && StyleWF(cursor) && StyleWF(next.Style) && At(row, col)
+       && vx.caps.styledUnderlines && cursor.UnderlineColor != next.UnderlineColor && (len(ps) == 0 || len(ps) == 1 || len(ps) == 3)
+       && (len(ps) == 0 ==> ShownCol(vx, next.UnderlineColor) == 0)
+       && (len(ps) == 1 ==> ShownCol(vx, next.UnderlineColor) == ps[0] + 16777216)
+       && (len(ps) == 3 ==> ShownCol(vx, next.UnderlineColor) == ps[0] * 65536 + ps[1] * 256 + ps[2] + 33554432)
+  cut "if cursor.Attribute != next.Attribute" forget pen s3: PenIs(vx, next.Foreground, next.Background, next.UnderlineColor, cursor.UnderlineStyle, cursor.Attribute, cursor.Hyperlink) && vx.tw != nil && StyleWF(cursor) && StyleWF(next.Style) && At(row, col)
+  cut "if cursor.UnderlineStyle != next.UnderlineStyle" forget pen s4: PenIs(vx, next.Foreground, next.Background, next.UnderlineColor, cursor.UnderlineStyle, next.Attribute, cursor.Hyperlink) && vx.tw != nil && StyleWF(cursor) && StyleWF(next.Style) && At(row, col)
+  cut "if cursor.Hyperlink != next.Hyperlink" forget pen s5: PenIs(vx, next.Foreground, next.Background, next.UnderlineColor, next.UnderlineStyle, next.Attribute, cursor.Hyperlink) && vx.tw != nil && StyleWF(cursor) && StyleWF(next.Style) && At(row, col)
+  cut "cursor = next.Style" C01_pen: PenOK(vx, next.Style)
+  -- and the cursor is on the cell whose text is about to be written
+  cut "cursor = next.Style" C01_at: At(row, col)
+  cut "case next.Width == 0:" assume tw: next.Width >= 0 && (next.Width >= 1 ==> textw(next.Grapheme) == next.Width) -- the width of a cell (given, or measured) is not negative and is the number of columns the terminal advances when it prints the cell's grapheme: the premise of cell-based rendering
+  loop 6 invariant col: 0 <= col && 0 <= row && row < vx.screenNext.rows
+  -- C01 addressing: while no cursor address is pending, the terminal's cursor is on the cell the loop is at
+  loop 6 invariant C01_pos: !reposition ==> At(row, col)
+  -- C01 bookkeeping, locally: the cell just written is recorded in screenLast, and the cells a glyph of width w covers
+  -- (w - 1 of them, as far as the row reaches) are recorded as unknown, after a written and after an unchanged cell
+  loop 7 invariant C01_null: 1 <= i && Nulled(vx, row, col, i)
+  loop 8 invariant C01_null: 1 <= i && Nulled(vx, row, col, i)
+  cut "col += skip" @1 C01_null1: Nulled(vx, row, col, skip + 1)
+  cut "col += skip" @2 C01_null2: Nulled(vx, row, col, skip + 1)
+  loop 8 invariant C01_pos: !reposition && trow() == row + 1 && tcol() == col + skip + 2
+  loop 7 invariant col: 0 <= col && col < vx.screenNext.cols && 0 <= row && row < vx.screenNext.rows && skip >= 0
+  loop 8 invariant col: 0 <= col && col < vx.screenNext.cols && 0 <= row && row < vx.screenNext.rows && skip >= 0
+  ensures C01_linkclosed: pen().Hyperlink == ""
 @*/
